@@ -99,7 +99,10 @@ class Report:
                 known_hit.append(v)
             else:
                 new.append(v)
-        os.makedirs(os.path.join(VERIF, "evidence"), exist_ok=True)
+        # runs against a scratch copy (VERIF_REPO set: seeded variants, self-tests) never touch the evidence of /repo
+        alt = os.environ.get("VERIF_REPO") not in (None, "", "/repo")
+        evdir = os.path.join(VERIF, ".cache", "evidence-scratch") if alt else os.path.join(VERIF, "evidence")
+        os.makedirs(evdir, exist_ok=True)
         os.makedirs(os.path.join(VERIF, "replay"), exist_ok=True)
         for v in known_hit:
             print("KNOWN-FINDING: property=%s key=%s %s [%s] %s" % (self.pid, v["key"], known[v["key"]], v["where"], v["msg"]))
@@ -109,7 +112,7 @@ class Report:
                 json.dump({"property_id": self.pid, "key": v["key"], "rule": v["rule"], "instance": v["instance"],
                            "where": v["where"], "message": v["msg"], "tier": self.tier}, f, indent=1)
             print("VIOLATION property=%s replay=%s" % (self.pid, rp))
-            print("  rule=%s instance=%s at %s\n  %s" % (v["rule"], v["instance"], v["where"], v["msg"]))
+            print("  key=%s\n  rule=%s instance=%s at %s\n  %s" % (v["key"], v["rule"], v["instance"], v["where"], v["msg"]))
         n_obl = len(self.obligations)
         n_ok = sum(1 for o in self.obligations if o[2])
         distinct = len(set((o[0], o[1]) for o in self.obligations))
@@ -144,7 +147,7 @@ class Report:
             "wall_s": round(time.time() - self.t0, 3),
             "violations": len(new),
         }
-        with open(os.path.join(VERIF, "evidence", "%s.json" % self.pid), "w") as f:
+        with open(os.path.join(evdir, "%s.json" % self.pid), "w") as f:
             json.dump(ev, f, indent=1)
         print("%s: tier=%s obligations=%d discharged=%d known-findings=%d new-violations=%d wall=%.1fs" % (
             self.pid, self.tier, n_obl, n_ok, len(known_hit), len(new), time.time() - self.t0))
